@@ -1,9 +1,9 @@
 import RepeVerif.Model.Fleet
-/-! GENERATED by /verif/extract/fleet.py from /repo (src/fleet.rs, src/async_fleet.rs). -/
+/-! DEFAULT facts (used only when extract/fleet.py does not recognise the source): the tables with BrokenPipe, canonical loops. -/
 namespace Repe.Gen.Fleet
 open Repe.Fleet
-def retryableKinds : List IoKind := [.timedOut, .connectionRefused, .connectionReset, .connectionAborted, .notConnected, .unexpectedEof, .wouldBlock, .interrupted]
-def asyncRetryableKinds : List IoKind := [.timedOut, .connectionRefused, .connectionReset, .connectionAborted, .notConnected, .unexpectedEof, .wouldBlock, .interrupted]
+def retryableKinds : List IoKind := [.timedOut, .connectionRefused, .connectionReset, .connectionAborted, .notConnected, .unexpectedEof, .wouldBlock, .interrupted, .brokenPipe]
+def asyncRetryableKinds : List IoKind := [.timedOut, .connectionRefused, .connectionReset, .connectionAborted, .notConnected, .unexpectedEof, .wouldBlock, .interrupted, .brokenPipe]
 def serverRetry : Bool := false
 def otherRetry : Bool := false
 def asyncServerRetry : Bool := false
@@ -19,4 +19,3 @@ def asyncFanOutOverTargets : Bool := true
 def policy : Policy := ⟨retryableKinds, serverRetry, otherRetry⟩
 def asyncPolicy : Policy := ⟨asyncRetryableKinds, asyncServerRetry, asyncOtherRetry⟩
 end Repe.Gen.Fleet
-
